@@ -126,10 +126,10 @@ Proof. intros. unfold dedup. change (@nil B) with (map f []). apply merge_map; a
 (* ------------------------------------------------------------------ one class body *)
 Lemma scan_agree : forall inhf body kw seen own,
   py_scan inhf kw seen body = Some own ->
-  g2_scan inhf body = false -> g5_scan kw body = false -> g7_scan body = false -> g8_scan body = false ->
+  g2_scan inhf body = false -> g7_scan body = false ->
   g_scan kw body = map to_param (filter in_init own).
 Proof.
-  intros inhf. induction body as [|s r IH]; intros kw seen own Hpy H2 H5 H7 H8.
+  intros inhf. induction body as [|s r IH]; intros kw seen own Hpy H2 H7.
   - simpl in Hpy. inversion Hpy. reflexivity.
   - destruct s as [n a v | n p | n].
     + (* SAttr *)
@@ -139,29 +139,26 @@ Proof.
         assert (Hr : py_scan inhf kw seen r = Some own) by (destruct v; congruence).
         apply (IH kw seen own Hr).
         -- destruct v; simpl in H2; auto.
-        -- destruct v; simpl in H5; auto.
         -- simpl in H7; auto.
-        -- destruct v; simpl in H8; auto.
       * (* APlain *)
         destruct v as [| | fa].
-        -- simpl in Hpy, H2, H5, H7, H8. apply orb_false_iff in H2. destruct H2 as [Hn H2]. rewrite Hn in Hpy.
+        -- simpl in Hpy, H2, H7. apply orb_false_iff in H2. destruct H2 as [Hn H2]. rewrite Hn in Hpy.
            destruct (py_scan inhf kw seen r) as [o|] eqn:Er; simpl in Hpy; [|discriminate]. inversion Hpy; subst own.
-           simpl. rewrite orb_false_r. rewrite (IH kw seen o Er H2 H5 H7 H8). unfold to_param at 2. simpl. destruct kw; reflexivity.
-        -- simpl in Hpy, H2, H5, H7, H8.
+           simpl. rewrite andb_true_r. rewrite (IH kw seen o Er H2 H7). unfold to_param at 2. simpl. destruct kw; reflexivity.
+        -- simpl in Hpy, H2, H7.
            destruct (py_scan inhf kw seen r) as [o|] eqn:Er; simpl in Hpy; [|discriminate]. inversion Hpy; subst own.
-           simpl. rewrite orb_false_r. rewrite (IH kw seen o Er H2 H5 H7 H8). unfold to_param at 2. simpl. destruct kw; reflexivity.
-        -- simpl in Hpy, H2, H5, H7, H8.
-           apply orb_false_iff in H5. destruct H5 as [H5a H5]. apply orb_false_iff in H8. destruct H8 as [H8a H8].
+           simpl. rewrite andb_true_r. rewrite (IH kw seen o Er H2 H7). unfold to_param at 2. simpl. destruct kw; reflexivity.
+        -- simpl in Hpy, H2, H7.
            destruct (fa_default fa && fa_factory fa) eqn:Eb; [discriminate|].
            destruct (py_scan inhf kw seen r) as [o|] eqn:Er; simpl in Hpy; [|discriminate]. inversion Hpy; subst own.
-           specialize (IH kw seen o Er H2 H5 H7 H8).
+           specialize (IH kw seen o Er H2 H7).
            simpl. unfold in_init at 1. simpl. unfold opt_is in *.
            destruct (fa_init fa) as [[|]|] eqn:Ei; simpl; rewrite IH; auto;
-             unfold to_param at 2; simpl; rewrite H8a, orb_false_r;
-             (destruct (fa_kw fa) as [[|]|] eqn:Ek; destruct kw; simpl in *; try discriminate;
+             unfold to_param at 2; simpl;
+             (destruct (fa_kw fa) as [[|]|] eqn:Ek; destruct kw; simpl in *;
               rewrite (orb_comm (fa_factory fa)); reflexivity).
       * (* AClassVar *)
-        simpl in H2, H5, H7, H8.
+        simpl in H2, H7.
         assert (Hr : exists f o, py_scan inhf kw seen r = Some o /\ own = f :: o /\ f_type f = FClassVar).
         { simpl in Hpy. destruct v as [| | fa].
           - destruct (py_scan inhf kw seen r) as [o|]; simpl in Hpy; [|discriminate]. inversion Hpy. eauto.
@@ -172,34 +169,29 @@ Proof.
         simpl. unfold in_init at 1. rewrite Hf.
         apply (IH kw seen o Er).
         -- destruct v; auto.
-        -- destruct v; auto.
         -- auto.
-        -- destruct v; auto.
       * (* AInitVar *)
         destruct v as [| | fa].
-        -- simpl in Hpy, H2, H5, H7, H8. apply orb_false_iff in H2. destruct H2 as [Hn H2]. rewrite Hn in Hpy.
+        -- simpl in Hpy, H2, H7. apply orb_false_iff in H2. destruct H2 as [Hn H2]. rewrite Hn in Hpy.
            destruct (py_scan inhf kw seen r) as [o|] eqn:Er; simpl in Hpy; [|discriminate]. inversion Hpy; subst own.
-           simpl. rewrite orb_false_r. rewrite (IH kw seen o Er H2 H5 H7 H8). unfold to_param at 2. simpl. destruct kw; reflexivity.
-        -- simpl in Hpy, H2, H5, H7, H8.
+           simpl. rewrite andb_true_r. rewrite (IH kw seen o Er H2 H7). unfold to_param at 2. simpl. destruct kw; reflexivity.
+        -- simpl in Hpy, H2, H7.
            destruct (py_scan inhf kw seen r) as [o|] eqn:Er; simpl in Hpy; [|discriminate]. inversion Hpy; subst own.
-           simpl. rewrite orb_false_r. rewrite (IH kw seen o Er H2 H5 H7 H8). unfold to_param at 2. simpl. destruct kw; reflexivity.
-        -- simpl in Hpy, H2, H5, H7, H8.
-           apply orb_false_iff in H5. destruct H5 as [H5a H5]. apply orb_false_iff in H8. destruct H8 as [H8a H8].
+           simpl. rewrite andb_true_r. rewrite (IH kw seen o Er H2 H7). unfold to_param at 2. simpl. destruct kw; reflexivity.
+        -- simpl in Hpy, H2, H7.
            destruct (fa_factory fa || fa_default fa && fa_factory fa) eqn:Eb; [discriminate|].
            destruct (py_scan inhf kw seen r) as [o|] eqn:Er; simpl in Hpy; [|discriminate]. inversion Hpy; subst own.
-           specialize (IH kw seen o Er H2 H5 H7 H8).
+           specialize (IH kw seen o Er H2 H7).
            simpl. unfold in_init at 1. simpl. unfold opt_is in *.
            destruct (fa_init fa) as [[|]|] eqn:Ei; simpl; rewrite IH; auto;
-             unfold to_param at 2; simpl; rewrite H8a, orb_false_r;
-             (destruct (fa_kw fa) as [[|]|] eqn:Ek; destruct kw; simpl in *; try discriminate;
+             unfold to_param at 2; simpl;
+             (destruct (fa_kw fa) as [[|]|] eqn:Ek; destruct kw; simpl in *;
               rewrite (orb_comm (fa_factory fa)); reflexivity).
       * (* AKwOnly *)
-        simpl in Hpy, H2, H5, H7, H8. destruct seen; [discriminate|].
+        simpl in Hpy, H2, H7. destruct seen; [discriminate|].
         simpl. apply (IH true true own Hpy).
         -- destruct v; auto.
-        -- destruct v; auto.
         -- auto.
-        -- destruct v; auto.
     + (* SDef *) simpl in *. apply (IH kw seen own Hpy); auto.
     + (* SAnnProp *) simpl in H7. discriminate.
 Qed.
@@ -207,15 +199,13 @@ Qed.
 (* ------------------------------------------------------------------ one class *)
 Lemma class_agree : forall t b own,
   decorated b = true -> py_own t b = Some own ->
-  init_false b = false -> hw_assigns b = false ->
-  g2_scan (inh t b) (c_body b) = false -> g5_scan (dec_kw b) (c_body b) = false ->
-  g7_scan (c_body b) = false -> g8_scan (c_body b) = false ->
+  hw_assigns b = false ->
+  g2_scan (inh t b) (c_body b) = false -> g7_scan (c_body b) = false ->
   g_class_params b = map to_param (filter in_init own).
 Proof.
-  intros t b own Hd Hown H1 H4 H2 H5 H7 H8.
-  unfold g_class_params, py_own, init_false, dec_kw, decorated in *.
+  intros t b own Hd Hown H4 H2 H7.
+  unfold g_class_params, py_own, decorated in *.
   destruct (c_dec b) as [d|]; [|discriminate].
-  rewrite H1.
   assert (Hb : g_body b = c_body b).
   { unfold g_body, hw_assigns in *. destruct (c_hw b) as [[|n l]|]; simpl; try discriminate; apply app_nil_r. }
   rewrite Hb. eapply scan_agree; eauto.
@@ -272,8 +262,7 @@ Qed.
 
 (* ------------------------------------------------------------------ the main theorem *)
 Lemma known_gap_false : forall t e i c, known_gap t e i c = false ->
-  G1 t c = false /\ G2 t c = false /\ G3 t c = false /\ G4 t c = false /\ G5 t c = false /\ G6 t e i c = false /\
-  G7 t c = false /\ G8 t c = false.
+  G2 t c = false /\ G3 t c = false /\ G4 t c = false /\ G6 t e i c = false /\ G7 t c = false.
 Proof.
   intros t e i c H. unfold known_gap, gaps in H. simpl in H.
   repeat (apply orb_false_iff in H; destruct H as [? H]). repeat split; auto.
@@ -286,16 +275,14 @@ Lemma init_eq_cpython_modulo_known : forall t e i c,
   g_init_member t c = py_init_member e i c.
 Proof.
   intros t e i c Hev Hnth Hdec Hhw Hgap.
-  apply known_gap_false in Hgap. destruct Hgap as [H1 [H2 [H3 [H4 [H5 [H6 [H7 H8]]]]]]].
+  apply known_gap_false in Hgap. destruct Hgap as [H2 [H3 [H4 [H6 H7]]]].
   assert (Hin : In c t) by (eapply nth_error_In; eauto).
   (* CPython's fields are the flat collection *)
   unfold G6 in H6. destruct (nth_error e i) as [[fl|]|] eqn:Ee; try discriminate.
   apply negb_false_iff in H6. apply (list_eqb_eq fld_eqb fld_eqb_eq) in H6. subst fl.
-  (* c itself does not pass init=False *)
-  assert (Hc1 : init_false c = false).
-  { apply (existsb_false_forall _ _ H1). unfold chain. apply filter_In. split; auto. apply in_or_app. right. left. auto. }
   unfold g_init_member, py_init_member. rewrite Hhw, Hdec, Ee.
-  unfold init_false in Hc1. unfold decorated in Hdec. destruct (c_dec c) as [d|] eqn:Ed; [|discriminate]. rewrite Hc1.
+  unfold init_false. unfold decorated in Hdec. destruct (c_dec c) as [d|] eqn:Ed; [|discriminate].
+  destruct (opt_is (d_init d) false); [reflexivity|].
   f_equal.
   (* Griffe's collected list, class by class *)
   rewrite g_collect_chain.
@@ -303,12 +290,9 @@ Proof.
   { intros b Hb. destruct (chain_in t c b Hin Hb) as [Hbt Hbd].
     destruct (py_eval_own t t [] e Hev b Hbt) as [own Hown].
     unfold own_or_nil. rewrite Hown. apply (class_agree t b own Hbd Hown).
-    - apply (existsb_false_forall _ _ H1 b Hb).
     - apply (existsb_false_forall _ _ H4 b Hb).
     - apply (existsb_false_forall _ _ H2 b Hb).
-    - apply (existsb_false_forall _ _ H5 b Hb).
-    - apply (existsb_false_forall _ _ H7 b Hb).
-    - apply (existsb_false_forall _ _ H8 b Hb). }
+    - apply (existsb_false_forall _ _ H7 b Hb). }
   rewrite (flat_map_ext_in _ _ _ Hcls). rewrite flat_map_map_filter.
   unfold G3 in H3. apply negb_false_iff in H3.
   unfold g_reorder, py_params, flat_fields.
@@ -326,16 +310,14 @@ Proof.
   destruct (c_dec c); [discriminate|]. split; reflexivity.
 Qed.
 
-Lemma inherited_label_modulo_known : forall t c, G10 t c = false -> g_label t c = py_is_dataclass t c.
-Proof.
-  intros t c H. unfold G10, g_label, py_is_dataclass in *.
-  destruct (decorated c); simpl in *; auto. destruct (c_hw c); simpl in *; auto.
-Qed.
+(* the label is exactly dataclasses.is_dataclass, hand-written __init__ or not *)
+Lemma label_eq_is_dataclass : forall t c, g_label t c = py_is_dataclass t c.
+Proof. reflexivity. Qed.
 
-(* the sentence of the property: a class (without its own __init__) inheriting a dataclass is labelled as one *)
-Lemma inherited_label : forall t c b, c_hw c = None -> In b (mro_classes t c) -> decorated b = true -> g_label t c = true.
+(* the sentence of the property: a class inheriting a dataclass is labelled as one *)
+Lemma inherited_label : forall t c b, In b (mro_classes t c) -> decorated b = true -> g_label t c = true.
 Proof.
-  intros t c b Hh Hin Hd. unfold g_label. rewrite Hh. apply orb_true_iff. right. apply existsb_exists. eauto.
+  intros t c b Hin Hd. unfold g_label. apply orb_true_iff. right. apply existsb_exists. eauto.
 Qed.
 
 Lemma handwritten_init_kept : forall t e i c l, c_hw c = Some l ->
@@ -350,46 +332,44 @@ Definition P0 (n : name) := SAttr n APlain VNone.
 Definition P1 (n : name) := SAttr n APlain VPlain.
 Definition FA i k d f o := VField (mkfa i k d f o).
 
-Definition w1 : table := [mkcls (Some (mkdec (Some false) None)) [P1 0] None []; mkcls D0 [P1 1] None [0]].
 Definition w2 : table := [mkcls D0 [P1 0] None []; mkcls D0 [P0 0; P1 1] None [0]].
 Definition w3 : table := [mkcls D0 [P1 0] None []; mkcls D0 [SAttr 0 APlain (FA (Some false) None true false false); P1 1] None [0]].
 Definition w4 : table := [mkcls D0 [P0 0] (Some [80]) []; mkcls D0 [P1 1] None [0]].
-Definition w5 : table := [mkcls (Some (mkdec None (Some true))) [SAttr 0 APlain (FA None (Some false) true false false); P1 1] None []].
 Definition w6 : table := [mkcls D0 [P0 0] None []; mkcls D0 [P1 0] None [0]; mkcls D0 [P1 1] None [0]; mkcls D0 [] None [2; 1; 0]].
 Definition w7 : table := [mkcls D0 [SAnnProp 0] None []].
-Definition w8 : table := [mkcls D0 [SAttr 0 APlain (FA None None false false false)] None []].
-Definition w9 : table := [mkcls D0 [P1 0] None []; mkcls None [] (Some []) [0]].
 
 (* a decorated class without hand-written __init__, in a module CPython accepts, on which the two constructors differ,
-   and which satisfies exactly the k-th gap predicate *)
+   and which satisfies exactly the k-th gap predicate; flags = [G2; G3; G4; G6; G7] *)
 Definition refutes (t : table) (i : nat) (flags : list bool) : Prop :=
   exists e c, py_eval_table t = Some e /\ nth_error t i = Some c /\ decorated c = true /\ c_hw c = None /\
               g_init_member t c <> py_init_member e i c /\ gaps t e i c = flags.
 
 Ltac refute t i := exists (env_of t), (cls_at t i); vm_compute; repeat split; try reflexivity; discriminate.
 
-Lemma refuted_F1 : refutes w1 1 [true; false; false; false; false; false; false; false].
-Proof. refute w1 1. Qed.
-Lemma refuted_F1_own : refutes w1 0 [true; false; false; false; false; false; false; false].
-Proof. refute w1 0. Qed.
-Lemma refuted_F2 : refutes w2 1 [false; true; false; false; false; false; false; false].
+Lemma refuted_F2 : refutes w2 1 [true; false; false; false; false].
 Proof. refute w2 1. Qed.
-Lemma refuted_F3 : refutes w3 1 [false; false; true; false; false; false; false; false].
+Lemma refuted_F3 : refutes w3 1 [false; true; false; false; false].
 Proof. refute w3 1. Qed.
-Lemma refuted_F4 : refutes w4 1 [false; false; false; true; false; false; false; false].
+Lemma refuted_F4 : refutes w4 1 [false; false; true; false; false].
 Proof. refute w4 1. Qed.
-Lemma refuted_F5 : refutes w5 0 [false; false; false; false; true; false; false; false].
-Proof. refute w5 0. Qed.
-Lemma refuted_F6 : refutes w6 3 [false; false; false; false; false; true; false; false].
+Lemma refuted_F6 : refutes w6 3 [false; false; false; true; false].
 Proof. refute w6 3. Qed.
-Lemma refuted_F7 : refutes w7 0 [false; false; false; false; false; false; true; false].
+Lemma refuted_F7 : refutes w7 0 [false; false; false; false; true].
 Proof. refute w7 0. Qed.
-Lemma refuted_F8 : refutes w8 0 [false; false; false; false; false; false; false; true].
-Proof. refute w8 0. Qed.
 
-Lemma label_refuted_F9 : exists t c, In c t /\ existsb decorated (mro_classes t c) = true /\
-  py_is_dataclass t c = true /\ g_label t c = false /\ G10 t c = true.
-Proof. exists w9, (cls_at w9 1). vm_compute. repeat split; auto. Qed.
+(* the witnesses of the repaired defects F1, F5, F8 are gap-free now, so the main theorem covers them; computed here as well *)
+Definition x1 : table := [mkcls (Some (mkdec (Some false) None)) [P1 0] None []; mkcls D0 [P1 1] None [0]].
+Definition x5 : table := [mkcls (Some (mkdec None (Some true))) [SAttr 0 APlain (FA None (Some false) true false false); P1 1] None []].
+Definition x8 : table := [mkcls D0 [SAttr 0 APlain (FA None None false false false)] None []].
+Example repaired_F1 : known_gap x1 (env_of x1) 1 (cls_at x1 1) = false /\ known_gap x1 (env_of x1) 0 (cls_at x1 0) = false /\
+  g_init_member x1 (cls_at x1 0) = Absent /\ g_init_member x1 (cls_at x1 1) = Synth [mkp 0 PK true; mkp 1 PK true].
+Proof. vm_compute. repeat split; reflexivity. Qed.
+Example repaired_F5 : known_gap x5 (env_of x5) 0 (cls_at x5 0) = false /\
+  g_init_member x5 (cls_at x5 0) = Synth [mkp 0 PK true; mkp 1 KO true].
+Proof. vm_compute. repeat split; reflexivity. Qed.
+Example repaired_F8 : known_gap x8 (env_of x8) 0 (cls_at x8 0) = false /\
+  g_init_member x8 (cls_at x8 0) = Synth [mkp 0 PK false].
+Proof. vm_compute. repeat split; reflexivity. Qed.
 
 (* ------------------------------------------------------------------ non-vacuity: gap-free hierarchies with all ingredients *)
 Definition ok1 : table :=
@@ -675,10 +655,10 @@ Qed.
 Lemma init_eq_cpython_single_inheritance : forall t e i c,
   py_eval_table t = Some e -> linear t = true -> nth_error t i = Some c ->
   decorated c = true -> c_hw c = None ->
-  G1 t c = false -> G2 t c = false -> G3 t c = false -> G4 t c = false -> G5 t c = false -> G7 t c = false -> G8 t c = false ->
+  G2 t c = false -> G3 t c = false -> G4 t c = false -> G7 t c = false ->
   g_init_member t c = py_init_member e i c.
 Proof.
-  intros t e i c Hev Hlin Hc Hd Hh H1 H2 H3 H4 H5 H7 H8.
+  intros t e i c Hev Hlin Hc Hd Hh H2 H3 H4 H7.
   apply init_eq_cpython_modulo_known; auto.
-  unfold known_gap, gaps. simpl. rewrite H1, H2, H3, H4, H5, H7, H8, (single_inheritance_flat t e Hev Hlin i c Hc Hd). reflexivity.
+  unfold known_gap, gaps. simpl. rewrite H2, H3, H4, H7, (single_inheritance_flat t e Hev Hlin i c Hc Hd). reflexivity.
 Qed.
